@@ -2540,6 +2540,8 @@ class Interp(object):
                 for i_ in range(d[1]):
                     self.write_view(View(o, ('entryc', i_, i_)), newt, node)
                 return
+            if d == ('matrix', ('all',)):
+                d = ('all',)            # x[:,:,:] = value: the whole stack of matrices (the value is broadcast)
             if d[0] == 'all':
                 newt, _ = self.term_of(v, node)
                 if getattr(o, 'inty', False) and not self.inty(v):
